@@ -111,6 +111,7 @@ func checkUDPCollector(w *uWorld, reg *prometheus.Registry) *kit.Finding {
 	}
 	gotBytes := map[string]float64{}
 	gotStatus := map[string]float64{}
+	perKeyDir, perLocDir := map[string]float64{}, map[string]float64{}
 	var gotAdded, gotRemoved float64
 	for _, mf := range mfs {
 		for _, m := range mf.GetMetric() {
@@ -127,6 +128,11 @@ func checkUDPCollector(w *uWorld, reg *prometheus.Registry) *kit.Finding {
 			case "data_bytes":
 				if l["proto"] == "udp" {
 					gotBytes[l["dir"]+"|"+l["access_key"]] += v
+					perKeyDir[l["dir"]] += v
+				}
+			case "data_bytes_per_location":
+				if l["proto"] == "udp" {
+					perLocDir[l["dir"]] += v
 				}
 			case "udp_packets_from_client_per_location":
 				gotStatus[l["status"]] += v
@@ -144,6 +150,11 @@ func checkUDPCollector(w *uWorld, reg *prometheus.Registry) *kit.Finding {
 	for k, v := range gotBytes {
 		if wantBytes[k] != v {
 			return kit.Violation("udpmetrics:collector-bytes", "data_bytes{proto=udp,%s} = %v, the reported datagrams add up to %v", k, v, wantBytes[k])
+		}
+	}
+	for d, v := range perKeyDir {
+		if perLocDir[d] != v {
+			return kit.Violation("udpmetrics:collector-location-bytes", "data_bytes_per_location{proto=udp,dir=%s} adds up to %v, data_bytes for the same direction to %v", d, perLocDir[d], v)
 		}
 	}
 	for k, v := range wantStatus {
